@@ -79,7 +79,7 @@ def main():
                 "tail": lines[-1][:300] if lines else r.stderr[-300:],
             }
         meta["checks"] = checks
-        meta["caught_by"] = [p for p, c in checks.items() if c["exit"] == 1]
+        meta["caught_by"] = [p for p, c in checks.items() if c["exit"] == 1 and c["violation_lines"]]
         if confirmed:
             d = os.path.join(HERE, "seeded", a.sid)
             os.makedirs(d, exist_ok=True)
